@@ -65,6 +65,27 @@ class CFG:
                 r |= self._reach_from(t, avoid)
         return r
 
+    def reach_avoid(self, starts, avoid_blocks=(), avoid_edges=()):
+        """blocks reachable from `starts` without entering avoid_blocks or taking avoid_edges {(bb,label)}.
+        A start block that is itself in avoid_blocks is not expanded."""
+        ab = set(avoid_blocks)
+        ae = set(avoid_edges)
+        seen = set()
+        st = list(starts)
+        while st:
+            x = st.pop()
+            if x in seen or x in ab:
+                continue
+            seen.add(x)
+            for t, lab in self.succ[x]:
+                if (x, lab) in ae:
+                    continue
+                st.append(t)
+        return seen
+
+    def edge_targets(self, bb, label):
+        return [t for t, lab in self.succ[bb] if lab == label]
+
     def can_reach(self, a, b, avoid=()):
         return b in self._reach_from(a, avoid)
 
